@@ -246,17 +246,20 @@ def worker_class(kind):
 # ----------------------------------------------------------------------------- application programs
 
 _tmpfile = None
+_tmpfile_pid = None
 
 
-def data_file():
-    """A real temp file with position-dependent content (for the sendfile path)."""
-    global _tmpfile
-    if _tmpfile is None or _tmpfile.closed:
-        f = tempfile.TemporaryFile(prefix="verif-w-")
+def data_file_path():
+    """A real file with position-dependent content (for the sendfile path); one per process,
+    and every use opens it afresh so that no file offset is shared between cases or processes."""
+    global _tmpfile, _tmpfile_pid
+    if _tmpfile is None or _tmpfile_pid != os.getpid():
+        f = tempfile.NamedTemporaryFile(prefix="verif-w-", suffix=".bin")
         f.write(bytes((i * 7 + i // 251) % 256 for i in range(70000)))
         f.flush()
         _tmpfile = f
-    return _tmpfile
+        _tmpfile_pid = os.getpid()
+    return _tmpfile.name
 
 
 FILE_BYTES = bytes((i * 7 + i // 251) % 256 for i in range(70000))
@@ -335,7 +338,7 @@ class AppProgram(object):
                 rec["raised"] = "app:after_start"
                 raise RuntimeError("app failure after start_response")
             if mode == "file":
-                f = os.fdopen(os.dup(data_file().fileno()), "rb")
+                f = open(data_file_path(), "rb", buffering=0)
                 f.seek(p.get("file_offset", 0))
             else:
                 f = io.BytesIO(FILE_BYTES[:p.get("bytesio_len", 5000)])
